@@ -16,6 +16,7 @@ from sim.core import Chooser, EventLog, Violation, stable_hash
 # a statement with eight hybrids; compiled through transform_insn with a cached tree it costs milliseconds, so a
 # "long-lived instance" (temporary counter in the hundreds or thousands) is cheap to simulate
 WARMUP_BIG = "{ int32_t wq = RsV; RdV = wq++ + wq++ + wq++ + wq++ + wq++ + wq++ + wq++ + wq++; }"
+WARMUP_ONE = "{ int32_t wq = RsV; RdV = wq++; }"       # +1 temporary, compiled from a cached tree
 WARMUP = [
     "{ int32_t wq = 0; wq++; }",                          # +1 temporary
     "{ int32_t wq = RsV; RdV = wq++ + wq++; }",           # +2
@@ -54,7 +55,7 @@ class EngineC08(HistEngine):
 
     def _load(self):
         super()._load()
-        self.extra_texts = sorted(set(self.extra_texts) | {WARMUP_BIG})
+        self.extra_texts = sorted(set(self.extra_texts) | {WARMUP_BIG, WARMUP_ONE})
 
     # ------------------------------------------------------------------ workload
     def generate(self, ch: Chooser, index):
@@ -115,9 +116,62 @@ class EngineC08(HistEngine):
             if ch.chance(1, 5, "interleave"):
                 ops.append({"op": "stmt", "inst": ch.draw(len(insts), "winst"), "code": ch.choice(WARMUP, "warm2")})
         names = sorted({n for c in callers for n in c["uses"]} | {f["name"] for f in funcs} | set(BUNDLED_NAMES))
+        if ch.chance(1, 4, "directed"):
+            # directed history: place the instance's temporary counter exactly where a name written by a callee body
+            # would coincide with a live temporary of a caller (the counter is never reset, so every value is
+            # reached sooner or later on a long-lived instance; the simulator goes there on purpose)
+            directed = self.directed_history(ch, fmt0, funcs, callers, names)
+            if directed is not None:
+                ops = directed
         ops.append({"op": "dump_subs", "inst": 0, "names": names})
         return {"fmt0": fmt0, "cfg": cfg, "ops": ops, "funcs": gen_call.to_json({f["name"]: f for f in funcs}),
                 "callers": gen_call.to_json(callers), "state_seed": ch.draw(2**31, "state_seed")}
+
+    def directed_history(self, ch, fmt0, funcs, callers, names):
+        regs = [dict(gen_call.CallGen.registration(f), op="add_sub", inst=0) for f in funcs]
+        probe = list(regs) + [{"op": "stmt", "inst": 0, "code": c["text"]} for c in callers] + [{"op": "dump_subs", "inst": 0, "names": names}]
+        try:
+            obs = self.sim.execute(fmt0, probe)
+        except RuntimeError:
+            return None
+        defs = obs[-1].get("defs", {})
+        written: dict[str, set] = {}
+        for n, text in defs.items():
+            written[n] = set(re.findall(r'SETL\("(\w+)"', text))
+        cands = []
+        for ci, c in enumerate(callers):
+            o = obs[len(regs) + ci]
+            if o["status"] != "ok":
+                continue
+            code = o["parts"][0]["code"]
+            temps = re.findall(r'SETL\("(\w+?)(\d+)", (?:UN)?SIGNED\(\d+, VARL\("ret_val"\)\)\)', code)
+            if not temps:
+                continue
+            stem = temps[0][0]
+            first = int(temps[0][1])
+            closure = set(re.findall(r"\bhex_(\w+)\(", code))
+            todo = list(closure)
+            while todo:
+                n = todo.pop()
+                for m in re.findall(r"\bhex_(\w+)\(", defs.get(n, "").split("{", 1)[-1]):
+                    if m not in closure:
+                        closure.add(m)
+                        todo.append(m)
+            for n in sorted(closure):
+                for w in sorted(written.get(n, ())):
+                    m = re.fullmatch(re.escape(stem) + r"(\d+)", w)
+                    if m:
+                        for j in range(len(temps)):
+                            cands.append((ci, int(m.group(1)) - j))
+        cands = [(ci, w) for ci, w in cands if 0 <= w <= 6000]
+        if not cands:
+            return None
+        ci, warm = ch.choice(sorted(set(cands)), "directed.target")
+        ops = list(regs)
+        ops += [{"op": "insn", "inst": 0, "name": "warm", "parts": [WARMUP_BIG], "via": "transform_insn"}] * (warm // 8)
+        ops += [{"op": "insn", "inst": 0, "name": "warm", "parts": [WARMUP_ONE], "via": "transform_insn"}] * (warm % 8)
+        ops.append({"op": "stmt", "inst": 0, "code": callers[ci]["text"], "caller": ci, "directed": True})
+        return ops
 
     def describe(self, wl):
         d = super().describe(wl)
